@@ -34,7 +34,9 @@ impl Vm {
     // Make sure we have enough space for the error message
     // As this isn't accounted for during compilation
     let mut fiber = self.fiber;
-    fiber.ensure_stack(self, 1);
+    fiber.ensure_stack(self, 2);
+    // the callee slot of the call below: call_class stores the new instance there
+    fiber.push(val!(error));
     fiber.push(error_message);
 
     let mode = ExecutionMode::CallingNativeCode(self.fiber.frames().len());
